@@ -7,6 +7,7 @@ Require Import Urcu.Futex.FutexInv.
 Require Import Urcu.Futex.FutexSolo.
 Require Import Urcu.Futex.Waiter.
 Require Import Urcu.Futex.QsbrFutex.
+Require Import Urcu.Futex.CompatFutex.
 Import ListNotations.
 
 (* whenever the updater is blocked in FUTEX_WAIT some reader is inside a section or inside its exit/wake-up path (any number of readers and sections, every schedule and flush order, spurious wake-ups) *)
@@ -28,7 +29,7 @@ Print Assumptions C02_gp_solo_terminates.
 (* urcu-wait.h node protocol: waker never touches the node after the waiter returned; a blocked waiter still has its wake-up coming; waiter returns only after TEARDOWN *)
 Theorem C02_waiter_handshake :
     forall cs : list Waiter.choice,
-    let s := fold_left (fun (s : Waiter.st) (c : Waiter.choice) => exec c s) cs init in
+    let s := fold_left (fun (s : Waiter.st) (c : Waiter.choice) => exec c s) cs Waiter.init in
     bad s = false /\
     (ap s = A_Blocked -> kp s = K_Set \/ kp s = K_LoadR \/ kp s = K_Wake) /\
     (ap s = A_Done -> kp s = K_Done /\ kbuf s = []).
@@ -37,10 +38,10 @@ Print Assumptions C02_waiter_handshake.
 
 (* qsbr waiting-flag / futex handshake, one pass of wait_for_readers from ANY reader configuration (readers anywhere in the wake-up path of an earlier pass, stale flags), every schedule, spurious wake-ups allowed: whenever the updater is asleep and not woken, some reader is still short of the end of its quiescent-state announcement (it will wake the updater or find the futex word reset by one that will) *)
 Theorem C02_qsbr_no_lost_wakeup :
-    forall (inp0 : list nat) (s0 : st) (cs : list choice),
+    forall (inp0 : list nat) (s0 : QsbrFutex.st) (cs : list QsbrFutex.choice),
     NoDup inp0 ->
     upc s0 = U0 ->
-    let s := run inp0 cs s0 in
+    let s := QsbrFutex.run inp0 cs s0 in
     upc s = U7 ->
     woken s = false ->
     exists r : nat, rpc s r <> RDone /\ (waker (rpc s r) \/ futex s = true /\ In r inp0 /\ inp s r = true).
@@ -49,10 +50,31 @@ Print Assumptions C02_qsbr_no_lost_wakeup.
 
 (* hence, once every reader has completed its announcement, the updater is not left asleep *)
 Theorem C02_qsbr_all_done_not_asleep :
-    forall (inp0 : list nat) (s0 : st) (cs : list choice),
+    forall (inp0 : list nat) (s0 : QsbrFutex.st) (cs : list QsbrFutex.choice),
     NoDup inp0 ->
     upc s0 = U0 ->
-    let s := run inp0 cs s0 in (forall r : nat, rpc s r = RDone) -> upc s = U7 -> woken s = true.
+    let s := QsbrFutex.run inp0 cs s0 in (forall r : nat, rpc s r = RDone) -> upc s = U7 -> woken s = true.
 Proof. exact (@Urcu.Futex.QsbrFutex.qsbr_all_done_not_asleep). Qed.
 Print Assumptions C02_qsbr_all_done_not_asleep.
+
+(* futex fallback of a platform without the system call (compat_futex_noasync: one mutex, one condition variable), any number of sleepers, one waker whose store of the new value goes through its store buffer, spurious wake-ups at any time, every schedule: once the waker has returned no sleeper is queued on the condition variable or between its check of the word and its queueing *)
+Theorem C02_compat_futex_no_lost_wakeup :
+    forall cs : list choice,
+    let s := run true cs init in wk s = W_Done -> forall r : nat, sl s r <> S_Blocked /\ sl s r <> S_Wait.
+Proof. exact (@Urcu.Futex.CompatFutex.compat_no_lost_wakeup). Qed.
+Print Assumptions C02_compat_futex_no_lost_wakeup.
+
+(* ... and the word holds the new value in memory, so every sleeper that re-checks it leaves its loop *)
+Theorem C02_compat_futex_word_is_new :
+    forall cs : list choice,
+    let s := run true cs init in wk s = W_Done -> word s = false /\ wbuf s = false.
+Proof. exact (@Urcu.Futex.CompatFutex.compat_word_is_new). Qed.
+Print Assumptions C02_compat_futex_word_is_new.
+
+(* sensitivity: broadcasting without taking the mutex loses the wake-up (the sleeper checks the word, the waker stores, broadcasts to nobody and returns, the sleeper queues for ever) *)
+Theorem C02_compat_unlocked_broadcast_refuted :
+    exists cs : list choice,
+    let s := run false cs init in wk s = W_Done /\ word s = false /\ sl s 0 = S_Blocked /\ mtx s = Free.
+Proof. exact (@Urcu.Futex.CompatFutex.unlocked_broadcast_refuted). Qed.
+Print Assumptions C02_compat_unlocked_broadcast_refuted.
 
